@@ -21,6 +21,8 @@ pub struct Obj {
     pub wsnap: AtomicI32,
     /// snapshots currently held under live guards, by origin (see `ORIGINS`)
     pub snap_by: [AtomicI32; 8],
+    /// snapshots held by a payload destructor that runs during collection (open finding D10)
+    pub snap_dtor_ctx: AtomicI32,
     // exactly-once counters
     pub pop: AtomicU32,
     pub drop: AtomicU32,
@@ -52,6 +54,7 @@ impl Obj {
             weak: AtomicI32::new(0),
             wsnap: AtomicI32::new(0),
             snap_by: [const { AtomicI32::new(0) }; 8],
+            snap_dtor_ctx: AtomicI32::new(0),
             pop: AtomicU32::new(0),
             drop: AtomicU32::new(0),
             dealloc: AtomicU32::new(0),
@@ -80,6 +83,7 @@ impl Obj {
         for x in &self.snap_by {
             x.store(0, Relaxed);
         }
+        self.snap_dtor_ctx.store(0, Relaxed);
         self.pop.store(0, Relaxed);
         self.drop.store(0, Relaxed);
         self.dealloc.store(0, Relaxed);
@@ -564,9 +568,11 @@ fn check_owners_at_destruct(id: u32, what: &str) {
                 break;
             }
         }
+        // every holder is a guard taken inside a destructor that runs during collection
+        let ctx = if o.snap_dtor_ctx.load(SeqCst) == snap { "|context=destructor-during-collection" } else { "" };
         violation(
             "C02",
-            &format!("C02|{}-while-snapshot|origin={}|{}", what, origin, path_name()),
+            &format!("C02|{}-while-snapshot|origin={}|{}{}", what, origin, path_name(), ctx),
             format!("obj {}: {} began while {} snapshot(s) under live guards exist (depth {})", id, what, snap, CUR_DEPTH.with(|d| d.get())),
         );
     }
